@@ -219,7 +219,8 @@ def run_ghost_code(e: Engine, st: State, code: str, k=None):
     try:
         for stmt in tree.body:
             # lemma steps mentioning a local that is not bound on this path are skipped (they only add lemma instances)
-            names = {x.id for x in ast.walk(stmt) if isinstance(x, ast.Name)}
+            bound_params = {a.arg for x in ast.walk(stmt) if isinstance(x, ast.Lambda) for a in x.args.args}
+            names = {x.id for x in ast.walk(stmt) if isinstance(x, ast.Name)} - bound_params
             defs_known = set(st.store) | set(e.contract.defs if e.contract else {}) | set(e.reg.specs) | {"ghost", "G", "k", "True", "False", "None"}
             if any(nm not in defs_known and nm not in ("implies", "forall", "exists", "old", "ite", "iff", "prev", "loop_entry", "use_lemma", "len", "min", "max", "str", "isinstance", "typed", "is_none", "int") and nm not in e.repo.classes for nm in names):
                 continue
